@@ -145,7 +145,10 @@ def handleC36 (j : Json) : Json :=
     let ca : Option Nat := if jint (jget j "cancel_after") < 0 then none else some (jnat (jget j "cancel_after"))
     let r := runStream watch max ca script req
     let agree := !crash && r.delivered == delivered && r.final.reqs == seen && errName r.err == ierr
-    let viol := specStream watch max ca script req delivered seen (jnat (jget impl "seen_at_cancel"))
+    -- the specification decides "watch stream" by the property's own list, not by the code's allow-list
+    let specWatch := watchMethods.contains ("/pb.CoreRPC/" ++ method)
+    let viol := specStream specWatch max ca script req delivered seen (jnat (jget impl "seen_at_cancel")) ++
+                specAllow (jstrs (jget j "allow"))
     let reopened := seen.length > 1
     verdict id agree
       (Json.mkObj [("delivered", Json.arr (r.delivered.map Json.str).toArray), ("seen", r.final.reqs.length), ("err", errName r.err)])
